@@ -9,6 +9,12 @@ CLAIMED = {
     "C02": dict(level="model_checking", ref="4/C02", technique="TLA+ trace validation (LinTrace: exact optimisation over auxiliaries by enumeration + Fourier-Motzkin) on TLC-enumerated model families",
                 text="Same corpus as C01; for every source-feasible sample the exact optimum of the linear objective over all auxiliary extensions must equal the source objective evaluated by the specification's Eval.",
                 note="same trusted base as C01"),
+    "C07": dict(level="model_checking", ref="4/C07", technique="TLA+ trace validation of the real bounds analyzer (hook H1, BoundsTrace) and of published ranges of compiled models (LinTrace) on TLC-generated row sequences",
+                text="TLC generates ordered row sequences (BoundsGen) x step limits; the real analyzer's box, published domain and sub-expression intervals are validated against the specification's exact evaluation on a sample grid; published ranges of compiled models are validated on corpus K.",
+                note="bounds are rounded outward to 1/1024 before crossing to TLC; continuous variables sampled on a grid; hook H1 trusted to call the same functions as the linearizer"),
+    "C08": dict(level="model_checking", ref="4/C08", technique="TLA+ trace validation (LinTrace!IllFormed / BadErr) of real Linearizer outputs and errors on TLC-enumerated model families incl. naming corner cases",
+                text="Structural predicate over every compile outcome of corpus K plus family E (duplicate names, $-named user variables, infinite constants, empty aggregations, unbounded operands); guessed constants are excluded semantically by C01 far-point samples.",
+                note="name order is passed as byte-order ranks computed by the harness; finiteness is read from f64::is_finite by the harness"),
 }
 NOT_YET = {}
 ALL = [f"C{i:02d}" for i in range(1, 21)]
@@ -38,7 +44,7 @@ m = {
         "guard": "--cfg rooc_verif",
         "enable": "harness/.cargo/config.toml sets rustflags --cfg rooc_verif for the harness build (path dependency on /repo/packages/rooc)",
         "baseline_off_cmd": "cd /repo/packages/rooc && cargo test --workspace --no-fail-fast --offline",
-        "source_commits": [],
+        "source_commits": ["fa39267"],
         "add_only": True,
     },
     "engines": [
